@@ -496,17 +496,25 @@ RESN = [('8080', 'ds', 1), ('z80', 'ds', 1), ('8051', 'ds', 1), ('8086', 'ds', 1
         ('msp430', 'bss', 1), ('320c25', 'bss', 1), ('8048', 'ds', 1), ('z8601', 'ds', 1), ('1802', 'ds', 1), ('m16c', 'ds.b', 1), ('80c166', 'ds', 1), ('z180', 'ds', 1)]
 
 
+RESN_DUP = [('6809', 'fcb [%d]?', 1), ('6809', 'fdb [%d]?', 2), ('6809', 'fcb [%d]7', 1), ('6809', 'fdb [%d]7', 2), ('6800', 'fcc [%d]"ab"', 2), ('6805', 'fcb [%d]?', 1),
+            ('68hc12', 'fcb [%d]1', 1), ('68000', 'dc.b [%d]?', 1), ('68000', 'dc.w [%d]1', 2), ('68000', 'dc.l [%d]?', 4), ('st7', 'dc.b [%d]1', 1), ('6811', 'fdb [%d]1', 2)]
+
+
 def resvn_cases():
     """reservations with an explicit size: the address advances by size x unit; a negative size is rejected (it would move the
     address back over code already written)"""
     for cpu, kw, unit in RESN:
         for n in (1, 2, 5, 100, -1, -2, -100):
             yield {'k': 'resvn', 'cpu': cpu, 'kw': kw, 'unit': unit, 'n': n}
+    # the Motorola repeat factor [n] in front of a value or of '?'
+    for cpu, kw, unit in RESN_DUP:
+        for n in (1, 2, 5, 100, -1, -2, -100):
+            yield {'k': 'resvn', 'cpu': cpu, 'kw': kw, 'unit': unit, 'n': n}
 
 
 def ev_resvn(case):
     start = 0x40
-    lines = ['\tcpu ' + case['cpu'], '\torg %d' % start, 'buf:\t%s %d' % (case['kw'], case['n']), 'after:']
+    lines = ['\tcpu ' + case['cpu'], '\torg %d' % start, 'buf:\t' + (case['kw'] % case['n'] if '%d' in case['kw'] else '%s %d' % (case['kw'], case['n'])), 'after:']
     core.fresh()
     core.put('a.asm', '\n'.join(lines) + '\n')
     o = core.run('asl', ['-q', '-g', 'map', 'a.asm'])
